@@ -991,6 +991,8 @@ def _read_asn1_integer(
         hint=hint,
     )
     b_int = bytearray(raw_int)
+    if not b_int:
+        raise ValueError("Invalid ASN.1 INTEGER value, no content octets")
 
     is_negative = b_int[0] & 0b10000000
     if is_negative:
@@ -1033,6 +1035,9 @@ def _read_asn1_object_identifier(
         header=header,
         hint=hint,
     )
+
+    if not raw_oid:
+        raise ValueError("Invalid ASN.1 OBJECT IDENTIFIER value, no content octets")
 
     first_element = struct.unpack("B", raw_oid[:1])[0]
     second_element = first_element % 40
